@@ -233,3 +233,7 @@ impl Reader {
         }
     }
 }
+
+#[cfg(kani)]
+#[path = "/verif/harness/link_reader.rs"]
+mod verif_harness;
